@@ -199,3 +199,154 @@ def scatter(nelx, nely, nelz, ndof, x, Ke):
             for b in range(dc.shape[1]):
                 K[dc[e, a], dc[e, b]] += x[e] * Ke[a, b]
     return K
+
+
+# ---------------------------------------------------------------------------------------------------------------
+# Additions for C08 / C12 (assembly with boundary conditions, physics invariants, affine fields, element operators)
+# ---------------------------------------------------------------------------------------------------------------
+
+def apply_bc(K, bc, diagval):
+    """Rows and columns of the constrained dofs zeroed, `diagval` on their diagonal (dense copy)."""
+    K = np.array(K, copy=True)
+    for d in bc:
+        for j in range(K.shape[1]):
+            K[d, j] = 0
+        for i in range(K.shape[0]):
+            K[i, d] = 0
+    for d in bc:
+        K[d, d] = diagval
+    return K
+
+
+def elem_centroids(nelx, nely, nelz, size):
+    """Centroid coordinates (dim, nel) in element-number order (origin at node (0,0,0))."""
+    dim = dims(nelx, nely, nelz)
+    c = np.zeros((dim, nel(nelx, nely, nelz)))
+    for (i, j, k) in elem_indices(nelx, nely, nelz):
+        e = elem_number(nelx, nely, nelz, i, j, k)
+        ijk = (i, j, k)
+        for d in range(dim):
+            c[d, e] = (ijk[d] + 0.5) * size[d]
+    return c
+
+
+def elem_volume(dim, size, thickness_2d=True):
+    """Element volume; in 2-D the out-of-plane size is the thickness."""
+    v = 1.0
+    for d in range(dim):
+        v *= size[d]
+    if dim == 2 and thickness_2d:
+        v *= size[2]
+    return v
+
+
+def affine_nodal_field(pos, a, G):
+    """u(x) = a + G x sampled at the nodes, node-wise interleaved: u[n*m + c] (m = len(a) components)."""
+    a = np.asarray(a, dtype=float)
+    G = np.asarray(G, dtype=float)
+    m = a.shape[0]
+    nn = pos.shape[1]
+    u = np.zeros(nn * m)
+    for n in range(nn):
+        for c in range(m):
+            v = a[c]
+            for d in range(pos.shape[0]):
+                v += G[c, d] * pos[d, n]
+            u[n * m + c] = v
+    return u
+
+
+# position of each shear pair in the strain vector
+SHEAR_PAIRS = {
+    (2, 'voigt'): [(0, 1)],
+    (2, 'standard'): [(0, 1)],
+    (3, 'voigt'): [(1, 2), (2, 0), (0, 1)],      # yz, zx, xy
+    (3, 'standard'): [(0, 1), (1, 2), (2, 0)],   # xy, yz, zx
+}
+
+
+def strain_of_gradient(dim, G, order='voigt', engineering=True):
+    """Symmetric gradient of u = a + G x as a vector: normals xx,yy(,zz) then the shear pairs in the given order;
+    engineering shear gamma_ij = G_ij + G_ji, tensor shear eps_ij = gamma_ij / 2."""
+    G = np.asarray(G, dtype=float)
+    out = [G[d, d] for d in range(dim)]
+    for (i, j) in SHEAR_PAIRS[(dim, order)]:
+        g = G[i, j] + G[j, i]
+        out.append(g if engineering else 0.5 * g)
+    return np.array(out)
+
+
+def hooke_voigt(dim, E, nu, plane='strain'):
+    """Elasticity matrix for the Voigt order xx,yy,zz,yz,zx,xy.  For an isotropic material the shear block is mu*I,
+    so it coincides with `hooke` (a permutation of the shear rows leaves it unchanged)."""
+    return hooke(dim, E, nu, plane)
+
+
+def rigid_body_modes(pos):
+    """Translations and infinitesimal rotations as node-wise interleaved vectors: 3 in 2-D, 6 in 3-D."""
+    dim, nn = pos.shape
+    modes = []
+    for d in range(dim):
+        a = np.zeros(dim)
+        a[d] = 1.0
+        modes.append(affine_nodal_field(pos, a, np.zeros((dim, dim))))
+    for (i, j) in ([(0, 1)] if dim == 2 else [(0, 1), (1, 2), (2, 0)]):
+        W = np.zeros((dim, dim))
+        W[i, j] = -1.0
+        W[j, i] = 1.0
+        modes.append(affine_nodal_field(pos, np.zeros(dim), W))
+    return modes
+
+
+def thermal_load_element(dim, size, E, nu, alpha, plane='strain', thickness=1.0):
+    """int B^T D (alpha*Phi) dV with Phi the unit normal strain (1,1,0) / (1,1,1,0,0,0): nodal load equivalent to a
+    unit temperature rise."""
+    D = hooke(dim, E, nu, plane)
+    Phi = np.zeros(D.shape[0])
+    Phi[:dim] = 1.0
+    f = np.zeros(dim * 2 ** dim)
+    for p, w in gauss_points(dim, size, 3):
+        B = bmatrix(dim, shape_fun_der(dim, size, p))
+        f += w * alpha * (B.T @ D @ Phi)
+    if dim == 2:
+        f *= thickness
+    return f
+
+
+def scatter_vector(nelx, nely, nelz, ndof, x, fe_vec):
+    """Dense sum_e x_e f_e through the dof connectivity."""
+    dc = dof_connectivity(nelx, nely, nelz, ndof)
+    f = np.zeros(nnodes(nelx, nely, nelz) * ndof)
+    for e in range(dc.shape[0]):
+        for a in range(dc.shape[1]):
+            f[dc[e, a]] += x[e] * fe_vec[a]
+    return f
+
+
+def element_operator_dense(nelx, nely, nelz, ndof, B):
+    """Dense matrix of y[..., e] = sum_k B[..., k] u[dofconn[e, k]] : rows = flattened (..., e) in C order,
+    columns = nodal dofs.  B has shape (..., nodes_per_element*ndof)."""
+    B = np.asarray(B)
+    dc = dof_connectivity(nelx, nely, nelz, ndof)
+    ne = dc.shape[0]
+    lead = B.shape[:-1]
+    nlead = int(np.prod(lead)) if lead else 1
+    B2 = B.reshape(nlead, B.shape[-1])
+    M = np.zeros((nlead * ne, nnodes(nelx, nely, nelz) * ndof), dtype=B.dtype)
+    for r in range(nlead):
+        for e in range(ne):
+            for k in range(dc.shape[1]):
+                M[r * ne + e, dc[e, k]] += B2[r, k]
+    return M
+
+
+def expand_per_dof(B, ndof):
+    """Element operator given per node (..., nn) repeated for every dof: result (ndof, ..., nn*ndof) with
+    out[d, ..., a*ndof + d] = B[..., a]."""
+    B = np.asarray(B)
+    nn = B.shape[-1]
+    out = np.zeros((ndof,) + B.shape[:-1] + (nn * ndof,), dtype=B.dtype)
+    for d in range(ndof):
+        for a in range(nn):
+            out[d, ..., a * ndof + d] = B[..., a]
+    return out
